@@ -57,8 +57,12 @@ def gen_cases(rng, n):
                 perm.remove(ranged[0])
                 perm.insert(0, ranged[0])
         cases.append(dict(kind="bspline" if k % 3 == 2 else "poly", bands=bands, multi=multi, linked=[str(p) for p in perm[:nl]], const=[str(p) for p in perm[nl:nl + nc]],
-                          order=int(k % 5), wavelengths=[float(w) for w in np.sort(rng.uniform(0.4, 5.0, nb))],
-                          sky=str(rng.choice(["none", "flat"])), loss=str(rng.choice(["gaussian_loss", "gaussian_loss_w_sys", "student_t_loss"])),
+                          order=int(k % 5),
+                          # every other case: bands not given in order of wavelength
+                          wavelengths=[float(w) for w in (np.sort(rng.uniform(0.4, 5.0, nb)) if k % 2 == 0 else rng.uniform(0.4, 5.0, nb))],
+                          sky=["none", "flat", "tilted-plane"][k % 3], loss=str(rng.choice(["gaussian_loss", "gaussian_loss_w_sys", "student_t_loss"])),
+                          # per-band masks: the last band masks pixels the others keep in "last-half"
+                          masks=["none", "mixed", "last-half"][(k // 2) % 3],
                           user_range=user_range, big=float(rng.choice([1.0, 1.0, 50.0])), seed=int(rng.integers(0, 2 ** 31))))
     return cases
 
@@ -85,17 +89,26 @@ def real_eval(payload):
             rng = np.random.default_rng(c["seed"])
             N = 10
             fitters, before = [], []
-            for b in c["bands"]:
+            user_masks = []
+            for ib, b in enumerate(c["bands"]):
                 data, rms, psf = U.make_images(rng, N)
                 loss = getattr(U.L, c["loss"])
+                mstyle = c.get("masks", "none")
+                if mstyle == "mixed":
+                    mask = U.make_mask(rng, N, ["none", "random", "half"][ib % 3])
+                elif mstyle == "last-half":
+                    mask = U.make_mask(rng, N, "half") if ib == len(c["bands"]) - 1 else (U.make_mask(rng, N, "random") if ib == 0 else None)
+                else:
+                    mask = None
+                user_masks.append(mask)
                 if c["multi"]:
                     cat = dict(x=[4.0, 6.5], y=[5.0, 3.5], flux=[50.0, 20.0], r=[1.5, 1.0], type=["sersic", "pointsource"])
                     kw = dict(sky_guess=0.3, sky_guess_err=0.1) if c["sky"] != "none" else {}
                     prior = U.PR.PySersicMultiPrior(cat, sky_type=c["sky"], **kw)
-                    f = U.pysersic.FitMulti(data, rms, psf, prior, loss_func=loss, renderer=U.RD.PixelRenderer)
+                    f = U.pysersic.FitMulti(data, rms, psf, prior, mask=mask, loss_func=loss, renderer=U.RD.PixelRenderer)
                 else:
                     prior = U.source_prior("sersic", sky_type=c["sky"], xc=N / 2, yc=N / 2, flux=float(rng.uniform(50, 100)), r_eff=float(rng.uniform(1.5, 2.5)))
-                    f = U.pysersic.FitSingle(data, rms, psf, prior, loss_func=loss, renderer=U.RD.PixelRenderer)
+                    f = U.pysersic.FitSingle(data, rms, psf, prior, mask=mask, loss_func=loss, renderer=U.RD.PixelRenderer)
                 fitters.append(f)
                 before.append(dict(f.prior.dist_dict))
             # direct relabelling of each band's prior (kept even if the multi-band constructor raises)
@@ -139,8 +152,11 @@ def real_eval(payload):
             sites = {}
             for name, s in tr.items():
                 if s["type"] == "sample":
+                    lp = np.asarray(s["fn"].log_prob(s["value"]), dtype=np.float64)
                     sites[name] = dict(kind="observed" if s["is_observed"] else "latent", value=np.asarray(s["value"], dtype=np.float64),
-                                       logp=float(np.sum(np.asarray(s["fn"].log_prob(s["value"]), dtype=np.float64))))
+                                       logp=float(np.sum(lp)))
+                    if s["is_observed"]:
+                        sites[name]["pix"] = lp
                 elif s["type"] == "deterministic":
                     sites[name] = dict(kind="deterministic", value=np.asarray(s["value"], dtype=np.float64))
             total = float(log_density(model, (), {}, lat)[0])
@@ -148,6 +164,33 @@ def real_eval(payload):
                         mean={k: float(v) for k, v in top.linked_params_mean.items()}, scale={k: float(v) for k, v in top.linked_params_scale.items()},
                         wv_normed=[float(x) for x in np.asarray(top.wv_normed)], unlinked=list(top.unlinked_params), param_names=list(top.param_names),
                         sky_params=[k[: -len("_" + c["bands"][0])] for k in top.fitter_list[0].prior.sky_prior.dist_dict])
+            # per band: what the band's own renderer gives for the band's parameter values (sky added in closed form by the oracle),
+            # and the band's own data / rms / mask as the user supplied them
+            per_band = []
+            for ib, (b, f) in enumerate(zip(c["bands"], top.fitter_list)):
+                def val(pname, b=b):
+                    for key in (f"{pname}_{b}", pname):
+                        if key in tr and tr[key]["type"] in ("sample", "deterministic"):
+                            return tr[key]["value"]
+                    raise KeyError(pname)
+                if c["multi"]:
+                    pnames = list(top.param_names)
+                    params = {pn: val(pn) for pn in pnames}
+                    bare = f.renderer.render_for_model(params, f.prior.catalog["type"], suffix="")
+                else:
+                    params = {pn: val(pn) for pn in SINGLE_PARAMS}
+                    bare = f.renderer.render_source(params, "sersic", suffix="")
+                skyv = {}
+                for sk in ("sky_back", "sky_x_sl", "sky_y_sl"):
+                    try:
+                        skyv[sk] = float(val(sk))
+                    except KeyError:
+                        pass
+                um = user_masks[ib]
+                per_band.append(dict(bare=np.asarray(bare, dtype=np.float64), skyv=skyv, data=np.asarray(fitters[ib].data, dtype=np.float64),
+                                     rms=np.asarray(fitters[ib].rms, dtype=np.float64), user_mask=None if um is None else np.asarray(um) != 0))
+            info["per_band"] = per_band
+            info["model_stack"] = np.asarray(tr["model"]["value"], dtype=np.float64) if "model" in tr else None
             if c["kind"] == "bspline":
                 info["dmat"] = np.asarray(top.dmat_bands, dtype=np.float64).tolist()
             # constant parameters: the object sampled once
@@ -269,6 +312,57 @@ def judge(ctx, c, r, x64):
             if sites.get(f"{p}_{b}_base", {}).get("kind") != "latent":
                 viol.append(v("unlinked-independent", f"unlinked parameter {p} has no independent latent in band {b}"))
                 break
+    # oracle: each band is rendered with its own parameters and sky, and judged against its own data, rms and mask
+    if not x64 and r.get("per_band") is not None:
+        from . import c07
+        N = r["per_band"][0]["bare"].shape[-1]
+        yy, xx = np.mgrid[:N, :N].astype(float)
+        for ib, (b, pb) in enumerate(zip(c["bands"], r["per_band"])):
+            sv = pb["skyv"]
+            if c["sky"] == "none":
+                sky = 0.0
+            elif c["sky"] == "flat":
+                sky = sv.get("sky_back", 0.0)
+            else:
+                sky = sv.get("sky_back", 0.0) + (xx - N / 2) * sv.get("sky_x_sl", 0.0) + (yy - N / 2) * sv.get("sky_y_sl", 0.0)
+            exp_img = pb["bare"] + sky
+            scale = max(float(np.abs(exp_img).max()), 1e-30)
+            if r.get("model_stack") is not None:
+                got = r["model_stack"][ib]
+                if not np.abs(got - exp_img).max() <= 2e-5 * scale:
+                    viol.append(v("band-image", f"band {b}: the band's model image differs from render(band parameters) + sky(band sky parameters) by "
+                                                f"{np.abs(got - exp_img).max():.3e} (scale {scale:.3g}, sky {c['sky']})"))
+                    break
+            good = np.ones((N, N), bool) if pb["user_mask"] is None else ~pb["user_mask"]
+            lname = "Loss_" + b
+            if lname in sites and "pix" in sites[lname]:
+                nuis = dict(frac_rms_increase=0.0, sys_rms_base=0.0, outlier_frac_base=0.0, rms_frac=0.0)
+                det = {}
+                if c["loss"] == "gaussian_loss_w_sys":
+                    base = float(sites["sys_rms_base_" + b]["value"])
+                    det["sys_rms_" + b] = dict(value=base * float(np.mean(pb["rms"][good])))
+                lc = dict(loss=c["loss"], m=exp_img.ravel(), d=pb["data"].ravel(), r=pb["rms"].ravel(), good=good.ravel(), nuis=nuis, suffix="_" + b)
+                doc = c07.doc_logpdf(lc, det)
+                exp = np.where(good.ravel(), doc, 0.0)
+                got = sites[lname]["pix"].ravel()
+                ok = np.abs(got - exp) <= 1e-4 + 4e-5 * np.abs(exp)
+                if not ok.all() and np.isfinite(exp).all():
+                    i = int(np.argmin(ok))
+                    viol.append(v("band-likelihood", f"band {b}: per-pixel log-likelihood {got[i]:.7g} differs from the documented density of the band's own "
+                                                     f"data/rms/mask {exp[i]:.7g} at pixel {i} (unmasked={bool(good.ravel()[i])}, masks {c.get('masks')})"))
+                    break
+    # oracle: the spline link is the declared B-spline (uniform knots padded by 10 % of the wavelength range) evaluated at each band's own wavelength
+    if c["kind"] == "bspline" and "dmat" in r:
+        from scipy.interpolate import make_interp_spline
+        wl = np.asarray(c["wavelengths"], dtype=np.float32).astype(float)
+        lo, hi = wl.min(), wl.max()
+        pad = (hi - lo) / 10.0
+        cls = make_interp_spline(x=np.linspace(lo - pad, hi + pad, num=4, endpoint=True), y=np.ones(4), k=2)
+        want = cls.design_matrix(wl, cls.t, k=2).toarray()
+        got = np.asarray(r["dmat"])
+        if got.shape != want.shape or not np.abs(got - want).max() <= 2e-5:
+            viol.append(v("spline-at-band-wavelength", f"design matrix row of a band is not the B-spline basis at that band's wavelength "
+                                                       f"(max difference {np.abs(got - want).max() if got.shape == want.shape else 'shape'}; wavelengths {c['wavelengths']})"))
     lik = [k for k, s in sites.items() if s["kind"] == "observed"]
     if len(lik) != len(c["bands"]):
         viol.append(v("likelihood-sites", f"{len(lik)} likelihood sites for {len(c['bands'])} bands: {lik}"))
